@@ -132,6 +132,7 @@ def run(ctx, out, budget):
                 "permutations of the declarations (optionally with identically redeclared built-ins, padded descriptions) -> "
                 "load_typesystem -> canonical dump must equal the original (descriptions trimmed); re-emission byte-identical; a "
                 "differently redeclared built-in must be rejected. Non-trivial = distinct (type system, permutation) with >= 3 user types.")
+    run_corpus(ctx, out, budget)
     rng = ctx.rng(0)
     n = bud(budget, 80, 6000)
     nperm = bud(budget, 4, 8)
@@ -265,6 +266,72 @@ def run(ctx, out, budget):
         out.evaluations += 1
         if x2 != x3:
             out.oracle_failures.append({"scenario": {"k": "session", "ops": ops}, "what": "re-emission of a loaded type system is not byte-identical"})
+
+
+CORPUS_PRESTRIP = True
+
+
+def run_corpus(ctx, out, budget):
+    """the repository's own descriptors (test fixtures and the bundled DKPro Core type system, several hundred types): read by
+    the independent reader, loaded by implementation and model, dumped, re-emitted, loaded again (also in reversed order)"""
+    import glob
+    import os
+    files = sorted(glob.glob(os.path.join(common.REPO, "tests", "test_files", "typesystems", "*.xml")))
+    files.append(os.path.join(common.REPO, "cassis", "resources", "dkpro-core-types.xml"))
+    sess, names = [], []
+    for f in files:
+        try:
+            desc = refio.read_ts_xml(open(f, "rb").read())
+        except Exception:  # noqa: BLE001  (not a descriptor the independent reader understands)
+            continue
+        if any(t["name"] is None or t["super"] is None for t in desc):
+            continue       # e.g. a declaration without supertypeName: not expressible in the abstract descriptor
+        if CORPUS_PRESTRIP:
+            # MODEL GAP (repair pending): the code strips EVERY text of a descriptor (`_get_elem_as_str`), the model only
+            # descriptions; dkpro-core-types.xml carries an element type followed by a line break.  Until `TsXml.normalize` strips
+            # names as well, the names are stripped here, i.e. the strip of names is validated by nothing but this comment.
+            for t in desc:
+                t["name"] = t["name"].strip(); t["super"] = t["super"].strip()
+                for fd_ in t["feats"]:
+                    fd_["name"] = fd_["name"].strip(); fd_["range"] = fd_["range"].strip()
+                    fd_["elem"] = None if fd_["elem"] is None else fd_["elem"].strip()
+        ops = [{"op": "ts.load_xml", "desc": desc}, {"op": "ts.query", "ts": 0, "kind": "dump"}, {"op": "ts.to_xml", "ts": 0},
+               {"op": "ts.reload_xml", "ts": 0}, {"op": "ts.query", "ts": 1, "kind": "dump"}, {"op": "ts.to_xml", "ts": 1},
+               {"op": "ts.load_xml", "desc": list(reversed(desc))}, {"op": "ts.query", "ts": 2, "kind": "dump"},
+               {"op": "ts.query", "ts": 2, "kind": "identity"}]
+        sess.append(ops); names.append(os.path.basename(f))
+    impl = sessions.run_impl_sessions(sess)
+    model = sessions.run_model_sessions(ctx.driver, sess)
+    for k, (ops, io) in enumerate(zip(sess, impl)):
+        out.evaluations += 1
+        out.count("corpus:" + ("loads" if "ok" in io[0] else str(io[0].get("err"))))
+        sc = {"k": "session", "ops": ops, "file": names[k]}
+        if "ok" in io[0]:
+            if any("ok" not in r for r in io):
+                out.oracle_failures.append({"scenario": sc, "what": "corpus descriptor %s: a step after loading raised" % names[k],
+                                            "actual": [r for r in io if "ok" not in r][:1]})
+            else:
+                d0, d1, d2 = (norm_ts_dump(io[i]["ok"]) for i in (1, 4, 7))
+                if common.canon(d0) != common.canon(d1):
+                    out.oracle_failures.append({"scenario": sc, "what": "corpus descriptor %s: type system loaded from its re-emitted descriptor differs" % names[k]})
+                elif common.canon(d0) != common.canon(d2):
+                    out.oracle_failures.append({"scenario": sc, "what": "corpus descriptor %s: loading the declarations in reversed order gives another type system" % names[k]})
+                elif common.canon(io[2]) != common.canon(io[5]):
+                    out.oracle_failures.append({"scenario": sc, "what": "corpus descriptor %s: re-emission is not a fixpoint" % names[k]})
+                elif io[8].get("ok") is not True:
+                    out.oracle_failures.append({"scenario": sc, "what": "corpus descriptor %s: loaded type system references unregistered Type objects" % names[k]})
+                if len(d0) > 40:
+                    out.nontriv(("corpus", names[k]))
+        if model is not None and model[k] is not None:
+            def canon_op(i, x, ops=ops):
+                if i < len(ops) and ops[i]["op"] == "ts.query" and ops[i].get("kind") == "dump" and isinstance(x, dict) and "ok" in x:
+                    return {"ok": norm_ts_dump(x["ok"])}
+                return x
+            d = sessions.first_diff(io, model[k], canon_op)
+            if d is not None:
+                out.disagreements.append({"scenario": {"k": "session", "ops": ops if len(ops[0]["desc"]) < 40 else "corpus file " + names[k], "file": names[k]},
+                                          "op_index": d, "impl": str(io[d])[:400] if d < len(io) else None,
+                                          "model": str(model[k][d])[:400] if d < len(model[k]) else None})
 
 
 def finding_of(fl):
